@@ -68,7 +68,11 @@ func runSolver(s solverSpec, file string, timeoutMs int, nObl int) (map[int]stri
 // discharge decides all obligations of a VC. Results are written into the obligations.
 func (eng *Engine) discharge(vc *VC, workDir string, timeoutMs int, thorough bool) (string, float64, error) {
 	os.MkdirAll(workDir, 0o755)
-	base := filepath.Join(workDir, sanitize(funcDisplay(vc.top)))
+	nm := funcDisplay(vc.top)
+	if vc.top == nil {
+		nm = "lemma." + vc.lemmaName
+	}
+	base := filepath.Join(workDir, sanitize(nm))
 	file := base + ".smt2"
 	// trivial obligations need no solver
 	pending := map[int]bool{}
